@@ -293,7 +293,7 @@ def run_fuzz(part: Part, ctx: Ctx, stats: "Stats", guard: typing.Any, examples: 
     p["evaluations"] += int(st.get("execs", 0))
     stats.evaluations += int(st.get("execs", 0))
     p["fuzz_execs"] = int(st.get("execs", 0))
-    p["fuzz_corpus"] = "seeded" if corpus else "empty"
+    p["fuzz_corpus"] = "generated-buffers" if part.fuzz_decode == "hypothesis" else ("seeded" if corpus else "empty")
     p["fuzz_raw_findings"] = int(st.get("violations", 0))
     if st.get("timeouts"):
         p["timeouts"] = p.get("timeouts", 0) + int(st["timeouts"])
